@@ -67,13 +67,13 @@ func GenInput(t *simrt.Tape, class string) (name string, text string) {
 	case InSyntax:
 		b.WriteString([]string{"start = = ;\n", "start = ( \"a\" ;\n", "start \"a\";\n", "TOK = ;\nstart = TOK;\n"}[t.Draw(4)])
 	case InSemantic:
-		b.WriteString([]string{"start = UNDEFINED ;\n", "NUM = /[0-9]+/;\nNUM = /[0-9]/;\nstart = NUM;\n", "rule = \"a\";\n", "start = other;\n", "A = $NOPE;\nstart = A;\n"}[t.Draw(5)])
+		b.WriteString([]string{"start = UNDEFINED ;\n", "NUM = /[0-9]+/;\nNUM = /[0-9]/;\nstart = NUM;\n", "rule = \"a\";\n", "start = other;\n", "AA = $NOPE;\nstart = AA;\n"}[t.Draw(5)])
 	case InTokenConflict:
-		b.WriteString([]string{"A = /[a-z]+/;\nB = /[a-c]+/;\nstart = A B;\n", "X = /ab*/;\nY = /a+/;\nstart = X | Y;\n"}[t.Draw(2)])
+		b.WriteString([]string{"AA = /[a-z]+/;\nBB = /[a-c]+/;\nstart = AA BB;\n", "XX = /ab*/;\nYY = /a+/;\nstart = XX | YY;\n"}[t.Draw(2)])
 	case InLALRConflict:
 		b.WriteString([]string{"start = start \"+\" start | \"n\";\n", "start = a | b;\na = \"x\";\nb = \"x\";\n"}[t.Draw(2)])
 	case InBadPattern:
-		b.WriteString([]string{"T = /[z-a]/;\nstart = T;\n", "T = /a{3,1}/;\nstart = T;\n", "T = /(/;\nstart = T;\n"}[t.Draw(3)])
+		b.WriteString([]string{"TK = /[z-a]/;\nstart = TK;\n", "TK = /a{3,1}/;\nstart = TK;\n", "TK = /(/;\nstart = TK;\n"}[t.Draw(3)])
 	case InEmpty:
 		return name, ""
 	}
